@@ -2061,6 +2061,33 @@ mod assumed_contracts {
         assert_eq!(&arr1(&[4.0f32, 8.0]) - 1.0, arr1(&[3.0, 7.0]));
         assert!(ndarray::stack(Axis(0), &[m.view(), n.view()]).unwrap().dim() == (2, 3, 2));
     }
+    /// ndtrack.rs / ndess.rs, remaining stubs: array inequality with NaN, dynamic broadcast, QuantileExt::max, columns, zeros
+    #[test]
+    fn assumed_ndarray_contracts_3() {
+        use ndarray_stats::QuantileExt;
+        let a = arr1(&[1.0f32, f32::NAN]);
+        assert!(a.ne(&a.clone()) && !arr1(&[1.0f32, 2.0]).ne(&arr1(&[1.0f32, 2.0])) && arr1(&[1.0f32, 2.0]).ne(&arr1(&[1.0f32, 2.5])));
+        let m = arr2(&[[1.0f32, 2.0], [3.0, 4.0]]);
+        assert!(m.index_axis(Axis(0), 0).index_axis(Axis(0), 1).ne(&m.index_axis(Axis(0), 1).index_axis(Axis(0), 1)));
+        let v = arr1(&[10.0f32, 20.0]);
+        let b = v.broadcast(ndarray::IxDyn(&[3, 2])).unwrap();
+        let d = (m.clone().into_dyn().slice(ndarray::s![0..2, ..]).to_owned() - b.slice(ndarray::s![0..2, ..])).into_dimensionality::<ndarray::Ix2>().unwrap();
+        assert_eq!(d, arr2(&[[-9.0f32, -18.0], [-7.0, -16.0]]));
+        assert!(v.broadcast(ndarray::IxDyn(&[3, 5])).is_none());
+        assert!(*arr1(&[1.0f32, 7.0, 3.0]).max().unwrap() == 7.0 && arr1(&[1.0f32, f32::NAN]).max().is_err() && Array1::<f32>::zeros(0).max().is_err());
+        assert_eq!(m.column(1).to_owned(), arr1(&[2.0f32, 4.0]));
+        assert_eq!(m.index_axis(Axis(1), 0).to_owned(), arr1(&[1.0f32, 3.0]));
+        assert!(Array2::<f32>::zeros((2, 3)).iter().all(|x| *x == 0.0) && Array2::<f32>::zeros((2, 3)).dim() == (2, 3));
+        assert!((m.nrows(), m.ncols(), m.len()) == (2, 2, 4) && m.dim() == (2, 2));
+        let mut o = Array2::<f32>::zeros((2, 2));
+        for (j, mut col) in o.axis_iter_mut(Axis(1)).enumerate() { col[1] = 5.0 + j as f32; }
+        assert_eq!(o, arr2(&[[0.0f32, 0.0], [5.0, 6.0]]));
+        let mut w = arr1(&[3.0f32, 1.0, 2.0]);
+        w.as_slice_mut().unwrap().sort_by(|a, b| b.total_cmp(a));
+        assert!(w == arr1(&[3.0f32, 2.0, 1.0]) && w.first() == Some(&3.0) && w.last() == Some(&1.0));
+        assert!((arr1(&[1.0f32, 2.0, 3.0, 4.0]).std(1.0) - 1.2909944).abs() < 1e-5);
+        assert_eq!(ndarray::Array3::from_shape_fn((2, 2, 1), |(c, t, _)| (c * 2 + t) as f32).mean_axis(Axis(0)).unwrap(), arr2(&[[1.0f32], [2.0]]));
+    }
     /// tensor.rs / tensorops.rs: element-wise operations, slicing, reshape (row-major), expand, matmul, reductions, masks,
     /// slice_assign, permute, row-major to_data, element-type tags
     #[test]
